@@ -134,4 +134,253 @@ theorem At.finish {L R : List Line} {s : DiffApply.St} {lp rp : Nat} (h : At L R
   rw [← span_drop L h.p1 h.p2, ← List.append_assoc, h.out, e, span_drop R (Nat.le_refl _) h.r1]
   simp
 
+/-! ## the normal format -/
+
+theorem takeWhile_stop {α : Type} (p : α → Bool) (a : List α) (k : α) (b : List α)
+    (ha : ∀ c ∈ a, p c = true) (hk : p k = false) : (a ++ k :: b).takeWhile p = a := by
+  rw [List.takeWhile_append_of_pos ha, List.takeWhile_cons_of_neg (by simp [hk])]; simp
+
+theorem dropPrefix_append (p x : Line) : DiffApply.dropPrefix? p (p ++ x) = some x := by
+  simp [DiffApply.dropPrefix?, List.isPrefixOf_iff_prefix]
+
+theorem takeMarked_writeLines (pfx : Line) (X rest : List Line) :
+    DiffApply.takeMarked pfx X.length (writeLines pfx X ++ rest) = some (X, rest) := by
+  induction X with
+  | nil => simp [writeLines, DiffApply.takeMarked]
+  | cons x X ih =>
+    have : writeLines pfx (x :: X) ++ rest = (pfx ++ x) :: (writeLines pfx X ++ rest) := by
+      simp [writeLines]
+    rw [this, List.length_cons, DiffApply.takeMarked, dropPrefix_append]
+    simp only [ih, Option.map]
+
+theorem parseNormalCmd_cmd (a b : Line) (k : Char) (x y : Nat × Option Nat) (ha : SpanChars a)
+    (hk : k = 'a' ∨ k = 'c' ∨ k = 'd') (hx : DiffApply.range? a = some x)
+    (hy : DiffApply.range? b = some y) : DiffApply.parseNormalCmd (a ++ k :: b) = some (x, k, y) := by
+  have hk' : (k.isDigit || k == ',') = false := by rcases hk with rfl | rfl | rfl <;> decide
+  have ht : (a ++ k :: b).takeWhile (fun c => c.isDigit || c == ',') = a := by
+    apply takeWhile_stop _ a k b _ hk'
+    intro c hc
+    rcases ha c hc with h | h
+    · simp [h]
+    · simp [h]
+  unfold DiffApply.parseNormalCmd
+  simp only [ht, List.drop_left, if_pos hk, hx, hy]
+
+/-- the optional second number of a `dspan`, defaulted to the first: the inclusive end -/
+theorem hi_getD {s e : Nat} (h : s < e) :
+    (if e - s = 1 then (none : Option Nat) else some (e - 1)).getD s = e - 1 := by
+  split
+  · simp only [Option.getD]; omega
+  · rfl
+
+theorem hi_isSome_none : (none : Option Nat).isSome = false := rfl
+
+theorem ne_nil_length {α : Type} {X : List α} (h : X ≠ []) : 1 ≤ X.length := by
+  cases X with | nil => exact absurd rfl h | cons a b => simp
+
+theorem applyNormalLoop_drop {L R : List Line} (f : Nat) (X : List Line) (lpos rpos : Nat)
+    (rest : List Line) (s : DiffApply.St) (hX : X ≠ []) (hat : At L R s lpos rpos)
+    (hs : X = span L lpos (lpos + X.length)) (hl : lpos + X.length ≤ L.length + 1) :
+    ∃ s', DiffApply.applyNormalLoop L (f + 1)
+      ((dspan lpos (lpos + X.length) ++ ['d'] ++ itoa (MdiffFmt.normalDropRight lpos rpos))
+        :: (writeLines (str MdiffFmt.nrmDel) X ++ rest)) s = DiffApply.applyNormalLoop L f rest s' ∧
+      At L R s' (lpos + X.length) rpos := by
+  have hk := ne_nil_length hX
+  have hr1 := hat.r1
+  obtain ⟨s', h1, h2⟩ := hat.hunk X [] hs (by simp [span_self]) hl (by have := hat.r3; simpa using this)
+  refine ⟨s', ?_, by simpa using h2⟩
+  have hp := parseNormalCmd_cmd (dspan lpos (lpos + X.length)) (itoa (MdiffFmt.normalDropRight lpos rpos)) 'd'
+    _ _ (spanChars_dspan _ _) (by simp) (range_dspan _ _) (range_itoa _)
+  have e0 : dspan lpos (lpos + X.length) ++ ['d'] ++ itoa (MdiffFmt.normalDropRight lpos rpos)
+      = dspan lpos (lpos + X.length) ++ 'd' :: itoa (MdiffFmt.normalDropRight lpos rpos) := by simp
+  have hg := hi_getD (show lpos < lpos + X.length by omega)
+  have e1 : lpos + X.length - 1 + 1 - lpos = X.length := by omega
+  have e2 : MdiffFmt.normalDropRight lpos rpos + 1 = rpos := by simp only [MdiffFmt.normalDropRight]; omega
+  have hd1 : ('d' = 'a') = False := by decide
+  rw [DiffApply.applyNormalLoop, e0, hp]
+  simp only [hg, Option.getD_none, hd1, if_false, if_true, hi_isSome_none, e1, str_wdel,
+    takeMarked_writeLines, e2, h1, Bool.false_eq_true]
+  rw [if_neg (by omega)]
+
+theorem applyNormalLoop_copy {L R : List Line} (f : Nat) (Y : List Line) (lpos rpos : Nat)
+    (rest : List Line) (s : DiffApply.St) (hY : Y ≠ []) (hat : At L R s lpos rpos)
+    (hs : Y = span R rpos (rpos + Y.length)) (hr : rpos + Y.length ≤ R.length + 1) :
+    ∃ s', DiffApply.applyNormalLoop L (f + 1)
+      ((itoa (MdiffFmt.normalAddLeft lpos rpos) ++ ['a'] ++ dspan rpos (rpos + Y.length))
+        :: (writeLines (str MdiffFmt.nrmIns) Y ++ rest)) s = DiffApply.applyNormalLoop L f rest s' ∧
+      At L R s' lpos (rpos + Y.length) := by
+  have hk := ne_nil_length hY
+  have hl1 : 1 ≤ lpos := Nat.le_trans hat.p1 hat.p2
+  obtain ⟨s', h1, h2⟩ := hat.hunk [] Y (by simp [span_self]) hs (by have := hat.l3; simpa using this) hr
+  refine ⟨s', ?_, by simpa using h2⟩
+  have hp := parseNormalCmd_cmd (itoa (MdiffFmt.normalAddLeft lpos rpos)) (dspan rpos (rpos + Y.length)) 'a'
+    _ _ (spanChars_itoa _) (by simp) (range_itoa _) (range_dspan _ _)
+  have e0 : itoa (MdiffFmt.normalAddLeft lpos rpos) ++ ['a'] ++ dspan rpos (rpos + Y.length)
+      = itoa (MdiffFmt.normalAddLeft lpos rpos) ++ 'a' :: dspan rpos (rpos + Y.length) := by simp
+  have hg := hi_getD (show rpos < rpos + Y.length by omega)
+  have e1 : rpos + Y.length - 1 + 1 - rpos = Y.length := by omega
+  have e2 : MdiffFmt.normalAddLeft lpos rpos + 1 = lpos := by simp only [MdiffFmt.normalAddLeft]; omega
+  rw [DiffApply.applyNormalLoop, e0, hp]
+  simp only [hg, Option.getD_none, if_true, hi_isSome_none, e1, str_wins,
+    takeMarked_writeLines, e2, h1, Bool.false_eq_true, if_false]
+  rw [if_neg (by omega)]
+
+theorem applyNormalLoop_replace {L R : List Line} (f : Nat) (X Y : List Line) (lpos rpos : Nat)
+    (rest : List Line) (s : DiffApply.St) (hX : X ≠ []) (hY : Y ≠ []) (hat : At L R s lpos rpos)
+    (hsx : X = span L lpos (lpos + X.length)) (hl : lpos + X.length ≤ L.length + 1)
+    (hsy : Y = span R rpos (rpos + Y.length)) (hr : rpos + Y.length ≤ R.length + 1) :
+    ∃ s', DiffApply.applyNormalLoop L (f + 1)
+      ((dspan lpos (lpos + X.length) ++ ['c'] ++ dspan rpos (rpos + Y.length))
+        :: (writeLines (str MdiffFmt.nrmDel) X ++ [str "---"] ++ writeLines (str MdiffFmt.nrmIns) Y ++ rest)) s
+        = DiffApply.applyNormalLoop L f rest s' ∧
+      At L R s' (lpos + X.length) (rpos + Y.length) := by
+  have hkx := ne_nil_length hX
+  have hky := ne_nil_length hY
+  obtain ⟨s', h1, h2⟩ := hat.hunk X Y hsx hsy hl hr
+  refine ⟨s', ?_, h2⟩
+  have hp := parseNormalCmd_cmd (dspan lpos (lpos + X.length)) (dspan rpos (rpos + Y.length)) 'c'
+    _ _ (spanChars_dspan _ _) (by simp) (range_dspan _ _) (range_dspan _ _)
+  have e0 : dspan lpos (lpos + X.length) ++ ['c'] ++ dspan rpos (rpos + Y.length)
+      = dspan lpos (lpos + X.length) ++ 'c' :: dspan rpos (rpos + Y.length) := by simp
+  have hgx := hi_getD (show lpos < lpos + X.length by omega)
+  have hgy := hi_getD (show rpos < rpos + Y.length by omega)
+  have e1 : lpos + X.length - 1 + 1 - lpos = X.length := by omega
+  have e2 : rpos + Y.length - 1 + 1 - rpos = Y.length := by omega
+  have hc1 : ('c' = 'a') = False := by decide
+  have hc2 : ('c' = 'd') = False := by decide
+  have e3 : writeLines (str MdiffFmt.nrmDel) X ++ [str "---"] ++ writeLines (str MdiffFmt.nrmIns) Y ++ rest
+      = writeLines ['<', ' '] X ++ (['-', '-', '-'] :: (writeLines ['>', ' '] Y ++ rest)) := by
+    simp [str_wdel, str_wins]; rfl
+  rw [DiffApply.applyNormalLoop, e0, hp, e3]
+  simp only [hgx, hgy, hc1, hc2, if_false, e1, e2, takeMarked_writeLines, h1, ne_eq, not_true_eq_false]
+  rw [if_neg (by omega)]
+
+theorem consumed_cons {α : Type} (e : Edit α) (es : List (Edit α)) :
+    consumed (e :: es) = consumedOf e ++ consumed es := by simp [consumed]
+theorem produced_cons {α : Type} (e : Edit α) (es : List (Edit α)) :
+    produced (e :: es) = producedOf e ++ produced es := by simp [produced]
+
+theorem span_nil_eq {α : Type} {l : List α} {s e : Nat} (h : [] = span l s e) (hs : 1 ≤ s) (hse : s ≤ e)
+    (he : e ≤ l.length + 1) : e = s := by
+  have := length_span l hs he
+  rw [← h] at this
+  simp at this; omega
+
+/-- the edits of one chunk: `normalEdits` applied command by command -/
+theorem applyNormalLoop_edits {L R : List Line} (es : List (Edit Line)) :
+    ∀ (lpos rpos le re : Nat) (rest : List Line) (s : DiffApply.St) (f : Nat),
+      At L R s lpos rpos → (∀ e ∈ es, EditOK e) →
+      consumed es = span L lpos le → produced es = span R rpos re →
+      lpos ≤ le → le ≤ L.length + 1 → rpos ≤ re → re ≤ R.length + 1 →
+      (normalEdits es lpos rpos ++ rest).length + 1 ≤ f →
+      ∃ f' s', rest.length + 1 ≤ f' ∧
+        DiffApply.applyNormalLoop L f (normalEdits es lpos rpos ++ rest) s
+          = DiffApply.applyNormalLoop L f' rest s' ∧ At L R s' le re := by
+  induction es with
+  | nil =>
+    intro lpos rpos le re rest s f hat _ hc hp h1 h2 h3 h4 hf
+    have hl1 : 1 ≤ lpos := Nat.le_trans hat.p1 hat.p2
+    have e1 := span_nil_eq hc hl1 h1 h2
+    have e2 := span_nil_eq hp hat.r1 h3 h4
+    subst e1; subst e2
+    exact ⟨f, s, by simpa [normalEdits] using hf, by simp [normalEdits], hat⟩
+  | cons e es ih =>
+    intro lpos rpos le re rest s f hat hok hc hp h1 h2 h3 h4 hf
+    have hl1 : 1 ≤ lpos := Nat.le_trans hat.p1 hat.p2
+    have hr1 := hat.r1
+    have hok' : ∀ e ∈ es, EditOK e := fun e' he' => hok e' (by simp [he'])
+    have he := hok e (by simp)
+    rw [consumed_cons] at hc
+    rw [produced_cons] at hp
+    obtain ⟨c1, c2, c3⟩ := span_split hc hl1 h1 h2
+    obtain ⟨p1, p2, p3⟩ := span_split hp hr1 h3 h4
+    obtain ⟨op, X, Y⟩ := e
+    cases op with
+    | drop =>
+      simp only [EditOK] at he
+      obtain ⟨hX, rfl⟩ := he
+      simp only [consumedOf, producedOf, List.length_nil, Nat.add_zero] at c1 c2 c3 p1 p2 p3
+      simp only [normalEdits] at hf ⊢
+      obtain ⟨f0, rfl⟩ : ∃ f0, f = f0 + 1 := ⟨f - 1, by omega⟩
+      have e1 : (dspan lpos (lpos + X.length) ++ ['d'] ++ itoa (MdiffFmt.normalDropRight lpos rpos)) ::
+            writeLines (str MdiffFmt.nrmDel) X ++ normalEdits es (lpos + X.length) rpos ++ rest
+          = (dspan lpos (lpos + X.length) ++ ['d'] ++ itoa (MdiffFmt.normalDropRight lpos rpos)) ::
+            (writeLines (str MdiffFmt.nrmDel) X ++ (normalEdits es (lpos + X.length) rpos ++ rest)) := by simp
+      rw [e1] at hf ⊢
+      obtain ⟨s1, hs1, hat1⟩ := applyNormalLoop_drop f0 X lpos rpos
+        (normalEdits es (lpos + X.length) rpos ++ rest) s hX hat c2 (by omega)
+      obtain ⟨f', s', hf', h, hat'⟩ := ih (lpos + X.length) rpos le re rest s1 f0 hat1 hok' c3 p3
+        c1 h2 h3 h4
+        (by simp only [List.length_cons, List.length_append] at hf ⊢; omega)
+      exact ⟨f', s', hf', by rw [hs1, h], hat'⟩
+    | emit =>
+      simp only [consumedOf, producedOf] at c1 c2 c3 p1 p2 p3
+      simp only [normalEdits] at hf ⊢
+      have hg : GapEq L R lpos rpos (lpos + X.length) (rpos + X.length) :=
+        ⟨by omega, by omega, by omega, by rw [← c2, ← p2]⟩
+      exact ih _ _ le re rest s f (hat.gap hg (by omega) (by omega)) hok' c3 p3 c1 h2 p1 h4 hf
+    | copy =>
+      simp only [EditOK] at he
+      obtain ⟨hY, rfl⟩ := he
+      simp only [consumedOf, producedOf, List.length_nil, Nat.add_zero] at c1 c2 c3 p1 p2 p3
+      simp only [normalEdits] at hf ⊢
+      obtain ⟨f0, rfl⟩ : ∃ f0, f = f0 + 1 := ⟨f - 1, by omega⟩
+      have e1 : (itoa (MdiffFmt.normalAddLeft lpos rpos) ++ ['a'] ++ dspan rpos (rpos + Y.length)) ::
+            writeLines (str MdiffFmt.nrmIns) Y ++ normalEdits es lpos (rpos + Y.length) ++ rest
+          = (itoa (MdiffFmt.normalAddLeft lpos rpos) ++ ['a'] ++ dspan rpos (rpos + Y.length)) ::
+            (writeLines (str MdiffFmt.nrmIns) Y ++ (normalEdits es lpos (rpos + Y.length) ++ rest)) := by simp
+      rw [e1] at hf ⊢
+      obtain ⟨s1, hs1, hat1⟩ := applyNormalLoop_copy f0 Y lpos rpos
+        (normalEdits es lpos (rpos + Y.length) ++ rest) s hY hat p2 (by omega)
+      obtain ⟨f', s', hf', h, hat'⟩ := ih lpos (rpos + Y.length) le re rest s1 f0 hat1 hok' c3 p3
+        h1 h2 p1 h4
+        (by simp only [List.length_cons, List.length_append] at hf ⊢; omega)
+      exact ⟨f', s', hf', by rw [hs1, h], hat'⟩
+    | replace =>
+      simp only [EditOK] at he
+      obtain ⟨hX, hY⟩ := he
+      simp only [consumedOf, producedOf] at c1 c2 c3 p1 p2 p3
+      simp only [normalEdits] at hf ⊢
+      obtain ⟨f0, rfl⟩ : ∃ f0, f = f0 + 1 := ⟨f - 1, by omega⟩
+      have e1 : (dspan lpos (lpos + X.length) ++ ['c'] ++ dspan rpos (rpos + Y.length)) ::
+            writeLines (str MdiffFmt.nrmDel) X ++ [str "---"] ++ writeLines (str MdiffFmt.nrmIns) Y ++
+              normalEdits es (lpos + X.length) (rpos + Y.length) ++ rest
+          = (dspan lpos (lpos + X.length) ++ ['c'] ++ dspan rpos (rpos + Y.length)) ::
+            (writeLines (str MdiffFmt.nrmDel) X ++ [str "---"] ++ writeLines (str MdiffFmt.nrmIns) Y ++
+              (normalEdits es (lpos + X.length) (rpos + Y.length) ++ rest)) := by simp
+      rw [e1] at hf ⊢
+      obtain ⟨s1, hs1, hat1⟩ := applyNormalLoop_replace f0 X Y lpos rpos
+        (normalEdits es (lpos + X.length) (rpos + Y.length) ++ rest) s hX hY hat c2 (by omega) p2 (by omega)
+      obtain ⟨f', s', hf', h, hat'⟩ := ih (lpos + X.length) (rpos + Y.length) le re rest s1 f0 hat1 hok' c3 p3
+        c1 h2 p1 h4
+        (by simp only [List.length_cons, List.length_append] at hf ⊢; omega)
+      exact ⟨f', s', hf', by rw [hs1, h], hat'⟩
+
+theorem applyNormalLoop_chunks {L R : List Line} (cs : List (Chunk Line)) :
+    ∀ (lp rp : Nat) (s : DiffApply.St) (f : Nat), At L R s lp rp → AllOK cs L R →
+      Aligned L R lp rp cs → (∀ c ∈ cs, ∀ e ∈ c.edits, EditOK e) → (normal cs).length + 1 ≤ f →
+      DiffApply.applyNormalLoop L f (normal cs) s = some R := by
+  induction cs with
+  | nil =>
+    intro lp rp s f hat _ hal _ hf
+    obtain ⟨f0, rfl⟩ : ∃ f0, f = f0 + 1 := ⟨f - 1, by omega⟩
+    simp only [normal, List.flatMap_nil, DiffApply.applyNormalLoop]
+    rw [hat.finish hal]
+  | cons c cs ih =>
+    intro lp rp s f hat hok hal hed hf
+    have hc := hok c (by simp)
+    obtain ⟨hg, hal'⟩ := hal
+    rw [normal_cons] at hf ⊢
+    have hat1 := hat.gap hg (by have := hc.l2; have := hc.l3; omega) (by have := hc.r2; have := hc.r3; omega)
+    obtain ⟨f', s', hf', h, hat'⟩ := applyNormalLoop_edits c.edits c.lstart c.rstart c.lend c.rend
+      (normal cs) s f hat1 (hed c (by simp)) hc.cons hc.prod hc.l2 hc.l3 hc.r2 hc.r3 hf
+    rw [h]
+    exact ih c.lend c.rend s' f' hat' (fun d hd => hok d (by simp [hd])) hal'
+      (fun d hd => hed d (by simp [hd])) hf'
+
+theorem applyNormal_chunks {L R : List Line} (cs : List (Chunk Line)) (hok : AllOK cs L R)
+    (hal : Aligned L R 1 1 cs) (hed : ∀ c ∈ cs, ∀ e ∈ c.edits, EditOK e) :
+    DiffApply.applyNormal (normal cs) L = some R :=
+  applyNormalLoop_chunks cs 1 1 ⟨[], 1⟩ _ (At.init L R) hok hal hed (Nat.le_refl _)
+
 end MdsVerif.Proofs.MdiffApply
